@@ -49,7 +49,8 @@ def key_random(fl, mon, coll, budget, thorough, shards=16, **extra):
     a = dict(mon=mon, coll=coll)
     a.update(extra)
     _noexport(a)
-    j = dict(flavour=fl, suite="key-random", args=a, shards=shards, budget=budget * (8 if thorough else 1), timeout=3000 if thorough else 120)
+    mult = 1 if fl == "asan" else 3  # calibrated: ~15 s per worker on 16 cores in the quick tier
+    j = dict(flavour=fl, suite="key-random", args=a, shards=shards, budget=budget * mult * (8 if thorough else 1), timeout=3000 if thorough else 120)
     if "seed_offset" in a:
         j["seed_offset"] = a.pop("seed_offset")
     if "mem_limit" in a:
@@ -60,7 +61,8 @@ def key_random(fl, mon, coll, budget, thorough, shards=16, **extra):
 def ord_random(fl, mon, coll, budget, thorough, shards=16, **extra):
     a = dict(mon=mon, coll=coll)
     a.update(extra)
-    j = dict(flavour=fl, suite="ord-random", args=a, shards=shards, budget=budget * (8 if thorough else 1), timeout=3000 if thorough else 120)
+    mult = 4 if fl == "asan" else 8
+    j = dict(flavour=fl, suite="ord-random", args=a, shards=shards, budget=budget * mult * (8 if thorough else 1), timeout=3000 if thorough else 120)
     if "seed_offset" in a:
         j["seed_offset"] = a.pop("seed_offset")
     return j
@@ -141,7 +143,7 @@ def _plan(prop, T):
                 ord_random("dbg", "structure,removal_stats", "maptree+settree+maptree-int+settree-int", 3200, T),
                 key_random("dbg", "structure", "tree", 3200, T),
                 ord_random("rel", "structure,removal_stats", "maptree+settree", 3200, T),
-                dict(flavour="rel", suite="big", args=dict(max_n=4000000 if T else 200000), shards=16, timeout=3400 if T else 150),
+                dict(flavour="rel", suite="big", args=dict(max_n=4000000 if T else 800000), shards=16, timeout=3400 if T else 150),
             ],
             rule="evaluation = one hooked arena snapshot validated after a completed public call (links, strict key order, no red-red edge, equal black count, sentinel unlinked, height <= 2*log2(n+1)+1); distinct non-trivial = closed canonical shapes with >= 2 entries + distinct pre-removal configurations (children, colours of node/sibling/nephews/parent, side) + distinct (n, height) pairs of large trees",
             require={
@@ -149,7 +151,7 @@ def _plan(prop, T):
                 "removal_red_leaf": 100, "removal_red_sibling": 100, "removal_far_nephew_red": 100, "removal_near_nephew_red_far_black": 100,
                 "removal_black_sibling_black_nephews_red_parent": 100, "removal_black_sibling_black_nephews_black_parent": 100,
                 "removal_black_sibling_black_nephews_black_parent_is_root": 20, "removal_root_with_one_child": 50, "removal_two_children_red_leaf_successor": 50,
-                "max_entries_seen": 100000,
+                "max_entries_seen": 500000,
             },
             exhaustive_scope="all shapes reachable by insert/delete over the listed key universes, for each of the three tree copies",
             assumptions=["snapshot hook is a faithful field-for-field read", "validator recomputes everything from raw links"],
@@ -159,8 +161,8 @@ def _plan(prop, T):
             jobs=[
                 dict(flavour="dbg", suite="seg-pairs", args=dict(mon="query", variant=0), shards=16),
                 dict(flavour="rel", suite="seg-pairs", args=dict(mon="query", variant=1), shards=16),
-                dict(flavour="dbg", suite="seg-random", args=dict(mon="query"), shards=16, budget=24000 * (8 if T else 1)),
-                dict(flavour="rel", suite="seg-random", args=dict(mon="query"), shards=16, budget=48000 * (8 if T else 1)),
+                dict(flavour="dbg", suite="seg-random", args=dict(mon="query"), shards=16, budget=24000 * 12 * (8 if T else 1)),
+                dict(flavour="rel", suite="seg-random", args=dict(mon="query"), shards=16, budget=48000 * 12 * (8 if T else 1)),
                 dict(flavour="dbg", suite="sweep-line", args=dict(mon="none", smon="query", seg=1, coll="tree"), shards=8, budget=160 * (6 if T else 1)),
                 miri("seg-random", 96, 8, T, mon="query", len=40),
                 miri("seg-pairs", 1, 8, T, mon="query", variant=1, stride=528),
@@ -267,8 +269,8 @@ def _plan(prop, T):
     if prop == "C12":
         return dict(
             jobs=[
-                dict(flavour="dbg", suite="clear-twin", args=dict(), shards=16, budget=14000 * (8 if T else 1)),
-                dict(flavour="rel", suite="clear-twin", args=dict(), shards=16, budget=21000 * (8 if T else 1), seed_offset=9),
+                dict(flavour="dbg", suite="clear-twin", args=dict(), shards=16, budget=14000 * 10 * (8 if T else 1)),
+                dict(flavour="rel", suite="clear-twin", args=dict(), shards=16, budget=21000 * 10 * (8 if T else 1), seed_offset=9),
                 miri("clear-twin", 28, 7, T, small=1),
             ],
             rule="evaluation = one operation executed after clear() on the cleared instance and on a freshly constructed twin (other capacity hint) with identical observations required (values by id offset, handles by dereferenced entry), reference model alongside; distinct non-trivial = distinct (history, suffix position)",
@@ -312,7 +314,7 @@ def _plan(prop, T):
             jobs=[
                 dict(flavour="dbg", suite="seg-pairs", args=dict(mon="query,tiling,layout", variant=0), shards=16),
                 dict(flavour="rel", suite="seg-pairs", args=dict(mon="query,tiling,layout", variant=0), shards=16),
-                dict(flavour="dbg", suite="seg-random", args=dict(mon="tiling,layout"), shards=8, budget=8000 * (8 if T else 1)),
+                dict(flavour="dbg", suite="seg-random", args=dict(mon="tiling,layout"), shards=8, budget=8000 * 12 * (8 if T else 1)),
                 miri("seg-pairs", 1, 8, T, mon="query,tiling,layout", variant=0, stride=176),
             ],
             rule="evaluation = one (insert range, query range) pair on a tree over [0,31]: the value must be yielded exactly once iff the ranges overlap; and per insert the hooked stored places must equal the independent canonical tiling of [a,b] (exact cover, <= 8 copies); distinct non-trivial = distinct ordered pairs + distinct insert ranges",
@@ -324,10 +326,10 @@ def _plan(prop, T):
     if prop == "C16":
         return dict(
             jobs=[
-                dict(flavour="dbg", suite="seg-random", args=dict(mon="purge"), shards=16, budget=24000 * (8 if T else 1)),
-                dict(flavour="rel", suite="seg-random", args=dict(mon="purge"), shards=16, budget=48000 * (8 if T else 1)),
+                dict(flavour="dbg", suite="seg-random", args=dict(mon="purge"), shards=16, budget=24000 * 12 * (8 if T else 1)),
+                dict(flavour="rel", suite="seg-random", args=dict(mon="purge"), shards=16, budget=48000 * 12 * (8 if T else 1)),
                 dict(flavour="rel", suite="seg-pairs", args=dict(mon="purge", variant=1), shards=16),
-                dict(flavour="dbg", suite="seg-random", args=dict(mon="purge", len=3000), shards=8, budget=160 * (8 if T else 1), seed_offset=21),
+                dict(flavour="dbg", suite="seg-random", args=dict(mon="purge", len=3000), shards=8, budget=160 * 6 * (8 if T else 1), seed_offset=21),
                 dict(flavour="dbg", suite="sweep-line", args=dict(mon="none", smon="purge", seg=1, coll="tree"), shards=8, budget=160),
             ],
             rule="evaluation = one hooked dump after a fully consumed query: after a whole-domain query at t no stored copy has expiration < t and the copy count equals the copies of unexpired values; after a partial query no expired copy remains in any scanned list; after every operation no unexpired value has lost a copy; distinct non-trivial = distinct (stored bucket ranges, query) cases",
@@ -352,9 +354,9 @@ def _plan(prop, T):
         return dict(
             level="fault_enumeration",
             jobs=[
-                dict(flavour="dbg", suite="fault", args=dict(), shards=16, budget=2800 * (8 if T else 1)),
-                dict(flavour="rel", suite="fault", args=dict(), shards=16, budget=2800 * (8 if T else 1), seed_offset=13),
-                dict(flavour="asan", suite="fault", args=dict(), shards=8, budget=700 * (8 if T else 1), seed_offset=14),
+                dict(flavour="dbg", suite="fault", args=dict(), shards=16, budget=2800 * 16 * (8 if T else 1)),
+                dict(flavour="rel", suite="fault", args=dict(), shards=16, budget=2800 * 16 * (8 if T else 1), seed_offset=13),
+                dict(flavour="asan", suite="fault", args=dict(), shards=8, budget=700 * 8 * (8 if T else 1), seed_offset=14),
                 miri("fault", 7, 7, T, len=8),
             ],
             rule="evaluation = one injection point (history, operation index, callback index) enumerated exhaustively per history: the callback panics, the panic is caught, then structure + slot accounting are validated, observable contents must equal the reference before or after the operation, the rest of the history runs under all monitors, and payload drops must balance; distinct non-trivial = distinct (collection, operation, callback index, reference contents before)",
